@@ -7,6 +7,15 @@ props = [json.loads(l) for l in open('/verif/properties.jsonl')]
 
 # id -> (technique, level text, level note)
 CHECKS = {
+ "C02": ("explicit-state exploration to closure of sender-progress x real-receiver graphs, one per case",
+         "For every case (PDU length 0..=40, thorough 0..=96; label kind incl. a first fragment replaced by re-use; fragment id; storage exactly sufficient and larger) the graph whose ops are 'offer an output buffer of size b' for the complete buffer alphabet 0..=p+24 and beyond 4097 is explored to closure, so every finite buffer schedule is covered; PDUs that must be fragmented (4094..9000, thorough up to the 16-bit limit) are explored by position with the receiver snapshot checked equal to the one the position determines. Every packet goes through the real decap; delivery, metadata, consumed lengths and a strictly decreasing liveness rank for buffers >= 13 are checked.",
+         "trusted: 4 content patterns, 3 protocol types; large regime keyed by position (sound because the receiver snapshot is asserted to be a function of the position on every transition)"),
+ "C03": ("exhaustive fault enumeration over real fragment trains + explicit-state BFS to closure over spliced hand-built trains, exact reference oracle on the received bytes",
+         "Every single fault of the menu (drop/dup/swap, every bit flip incl. header bits, every burst pattern up to 10 (14 thorough) bits at every offset, truncation at every byte, every frag-id value, total-length and CRC replacements) and all ordered pairs of drop/dup/swap/bit-flip faults are applied to trains produced by the real encapsulator; all sequences over 16 hand-built valid fragments of two PDUs spliced on one id (and other/aliasing ids) are explored to closure (13k states). A reference receiver with a bit-serial CRC decides on the received bytes whether a delivery was allowed and what must have been delivered.",
+         "trusted: refm parser/CRC; bursts of 15..32 bits only by 4 patterns per offset (2^30 per offset unreachable) — argued from C12 + degree-32 generator"),
+ "C07": ("explicit-state BFS to closure over (index per train, real receiver snapshot) with strays",
+         "All order-preserving merges of 2..3 (thorough 4) fragment trains of 2..5 fragments on separately tracked ids, with restarts and with stray intermediate/end packets of aliasing ids (id+n, id+2n), empty-slot ids, duplicate ends, complete packets, padding and (one configuration) a foreign first fragment claiming an aliasing slot inserted at every position any number of times, are covered by closing the state graph; isolation of every other train's reassembly data is checked on every transition and delivery exactly at the own end fragment with own bytes/metadata.",
+         "trusted: trains built by the reference printer; memory sizes n in {k, k+1}"),
  "C05": ("exhaustive enumeration of (reachable receiver state) x (input buffer) on the real decap and peek under catch_unwind",
          "About 2000 receiver snapshots (everything reachable within 3 ops from 24 storage configurations: absent / one buffer / full free list, storage sizes 0/1/4/64, 1 and 2 slots, open contexts on same / aliasing / other ids, any remembered label) are combined with all byte strings of length 0..=3, all fixed headers of 912 (thorough: all 65536) values x 27 buffer lengths x 17 adversarial tails, and every truncation / byte replacement of a 62-packet corpus from the real encapsulator; no panic, consumed <= len, consumed >= min(2,len).",
          "trusted: catch_unwind + panic hook; the statement's random inputs are replaced by structured complete enumerations"),
